@@ -12,7 +12,9 @@ import vlib
 vlib.ensure_coq_makefile()
 vlib.ensure_harness_mod(os.path.realpath(os.environ.get("VERIF_REPO", "/repo")))
 PY
-(cd coq && timeout 3000 make -j16)
+# -k: a file that fails to compile breaks only the checks that depend on it (./check rebuilds its own cone and reports)
+(cd coq && timeout 3000 make -k -j16) || echo "setup: some Coq files failed to compile (see above); the affected checks will report it"
 # warm the Go build cache: every harness command and translator
-(cd harness && for d in cmd/*/; do timeout 900 go build -tags verif -o ../build/bin/$(basename $d) ./$d || exit 1; done)
+(cd harness && for d in cmd/*/; do timeout 900 go build -tags verif -o ../build/bin/$(basename $d) ./$d || echo "setup: harness $d failed to build"; done)
+for d in translators/*/; do [ -f "$d/main.go" ] && (cd harness && timeout 900 go build -o ../build/bin/$(basename $d) ../$d 2>/dev/null) || true; done
 echo "setup ok"
